@@ -70,6 +70,8 @@ def findings(repo, prog):
         _g10(f, out)
         _g11(f, out)
         _g14(f, out)
+        _g15(f, out)
+        _g16(f, out)
         _g5b(f, out)
         _g4c(f, out)
     _g1(repo, prog, out)
@@ -923,6 +925,173 @@ def _g11(f, out):
                            '%s has no default and is not inside a handler for %s: it raises for every '
                            'character without a Unicode name (control characters, private-use and '
                            'unassigned code points)' % (unparse(x), exc), '%s: %s' % (f.qual, unparse(x))))
+
+
+# --------------------------------------------------------------------------- G16
+
+
+_UNHASHABLE = ('dict', 'list', 'set')
+
+
+def _maybe_unhashable_params(mod):
+    """{function name: {parameter index: type name}} for module-level functions that test a
+    parameter with isinstance(p, dict/list/set): their callers may pass such a value"""
+    d = getattr(mod, '_g16_params', None)
+    if d is None:
+        d = {}
+        for q, f in mod.functions.items():
+            if '.' in q or not isinstance(f, ast.FunctionDef):
+                continue
+            ps = [a.arg for a in f.args.args]
+            for c in ast.walk(f):
+                if isinstance(c, ast.Call) and isinstance(c.func, ast.Name) and c.func.id == 'isinstance' and \
+                        len(c.args) == 2 and isinstance(c.args[0], ast.Name) and c.args[0].id in ps:
+                    tys = c.args[1].elts if isinstance(c.args[1], ast.Tuple) else [c.args[1]]
+                    for t in tys:
+                        if isinstance(t, ast.Name) and t.id in _UNHASHABLE:
+                            d.setdefault(q, {})[ps.index(c.args[0].id)] = t.id
+        mod._g16_params = d
+    return d
+
+
+def unhashable_keys(mod, fnode):
+    """a local that the code itself treats as possibly a dict/list/set -- isinstance() test on it, or
+    it is handed to a module function that tests the corresponding parameter that way -- is used
+    as a dictionary key (D[k], `k in D` with a dict display / dict attribute created as {}).
+    Yields (key use node, name, why)."""
+    hp = _maybe_unhashable_params(mod)
+    belief = {}
+    for c in walk_fn(fnode):
+        if isinstance(c, ast.Call) and isinstance(c.func, ast.Name):
+            if c.func.id == 'isinstance' and len(c.args) == 2 and isinstance(c.args[0], ast.Name):
+                tys = c.args[1].elts if isinstance(c.args[1], ast.Tuple) else [c.args[1]]
+                for t in tys:
+                    if isinstance(t, ast.Name) and t.id in _UNHASHABLE:
+                        belief[c.args[0].id] = 'isinstance(%s, %s) is tested' % (c.args[0].id, t.id)
+            elif c.func.id in hp:
+                for i, a in enumerate(c.args):
+                    if isinstance(a, ast.Name) and i in hp[c.func.id]:
+                        belief.setdefault(a.id, 'it is passed to %s(), which tests isinstance(.., %s)'
+                                          % (c.func.id, hp[c.func.id][i]))
+    if not belief:
+        return
+    for x in walk_fn(fnode):
+        if isinstance(x, ast.Subscript) and isinstance(x.slice, ast.Name) and x.slice.id in belief:
+            base = x.value
+            # only containers that are dictionaries by construction: an attribute / name that is
+            # bound to {} or dict() somewhere in the module
+            bn = base.attr if isinstance(base, ast.Attribute) else (base.id if isinstance(base, ast.Name) else None)
+            if bn is None:
+                continue
+            isdict = any(isinstance(st, ast.Assign) and any(
+                (isinstance(t, ast.Name) and t.id == bn) or (isinstance(t, ast.Attribute) and t.attr == bn)
+                for t in st.targets) and (
+                (isinstance(st.value, ast.Dict)) or (isinstance(st.value, ast.Call) and call_name(st.value) == 'dict'))
+                for st in ast.walk(mod.tree))
+            if not isdict:
+                continue
+            # path facts: under `not isinstance(k, dict)` or a positive test for another type the
+            # key is not that container
+            excluded = False
+            for t, pol in atomic_facts(x):
+                if isinstance(t, ast.Call) and isinstance(t.func, ast.Name) and t.func.id == 'isinstance' and \
+                        len(t.args) == 2 and isinstance(t.args[0], ast.Name) and t.args[0].id == x.slice.id:
+                    tys = [unparse(e) for e in (t.args[1].elts if isinstance(t.args[1], ast.Tuple) else [t.args[1]])]
+                    if (not pol and any(ty in _UNHASHABLE for ty in tys)) or \
+                            (pol and not any(ty in _UNHASHABLE for ty in tys)):
+                        excluded = True
+            if not excluded:
+                yield x, x.slice.id, belief[x.slice.id]
+
+
+def _g16(f, out):
+    seen = set()
+    for x, name, why in unhashable_keys(f.mod, f.node):
+        if name in seen:
+            continue
+        seen.add(name)
+        out.append(Finding('G16', 'REFUTED', f.mod, enclosing_stmt(x) or x, f.key,
+                           '%s is used as a dictionary key (%s) although %s: when it is a dict the lookup raises '
+                           'TypeError (unhashable type)' % (name, short(x, 50), why),
+                           '%s: %s as dictionary key' % (f.qual, name)))
+
+
+# --------------------------------------------------------------------------- G15
+
+
+def unchecked_find(fnode):
+    """the result of str.find()/rfind() bound to a local is used as a number (slice bound, index,
+    operand of + or -, returned) on a path on which it was never compared with -1 / 0: "not found"
+    (-1) is then used as a position.  Per path, with re-bound names told apart (E7).
+    Yields (use node, variable, defining call, path text)."""
+    from . import symex
+    if not isinstance(fnode, (ast.FunctionDef, ast.AsyncFunctionDef)):
+        return
+    cands = set()
+    for st in walk_fn(fnode):
+        if isinstance(st, ast.Assign) and len(st.targets) == 1 and isinstance(st.targets[0], ast.Name) and \
+                isinstance(st.value, ast.Call) and call_name(st.value) in ('find', 'rfind') and call_recv(st.value) is not None:
+            cands.add(st.targets[0].id)
+    if not cands:
+        return
+
+    def numeric_use(n):
+        par = getattr(n, '_parent', None)
+        if isinstance(par, ast.Slice):
+            return True
+        if isinstance(par, ast.BinOp) and isinstance(par.op, (ast.Add, ast.Sub)):
+            return True
+        if isinstance(par, ast.Subscript) and par.slice is n:
+            return True
+        if isinstance(par, ast.Return) or (isinstance(par, ast.Tuple) and isinstance(getattr(par, '_parent', None), ast.Return)):
+            return True
+        return False
+    try:
+        cases = symex.Walker(is_sink=lambda n: isinstance(n, ast.Name) and n.id in cands and isinstance(n.ctx, ast.Load)
+                             and numeric_use(n), sink_types=(ast.Name,)).run(fnode)
+    except (symex.TooManyPaths, RecursionError):
+        return
+    seen = set()
+    for cs in cases:
+        sym = cs.sub
+        if not isinstance(sym, ast.Name):
+            continue
+        d = cs.env.get('#def', {}).get(sym.id)
+        if not (isinstance(d, ast.Call) and call_name(d) in ('find', 'rfind')):
+            continue
+        checked = False
+        recv_, arg0_ = unparse(call_recv(d)), (unparse(d.args[0]) if d.args else None)
+        conds_ = list(cs.conds) + [(symex.subst(t_, cs.env), p_) for t_, p_ in short_circuit_facts(cs.node)]
+        for t, pol in conds_:
+            for a, ap in symex._atoms(t, pol):
+                if isinstance(a, ast.Compare) and len(a.ops) == 1:
+                    l_, r_ = a.left, a.comparators[0]
+                    if isinstance(r_, ast.Name) and r_.id == sym.id:
+                        l_, r_ = r_, l_
+                    if isinstance(l_, ast.Name) and l_.id == sym.id:
+                        rv = unparse(r_).replace(' ', '')
+                        if rv in ('-1', '0') or rv.startswith('len('):
+                            checked = True
+                    # `R.count(A) >= k` (k >= 1) on the same receiver and argument: A occurs, find() succeeds
+                    if ap and isinstance(a.left, ast.Call) and call_name(a.left) == 'count' and call_recv(a.left) is not None \
+                            and unparse(call_recv(a.left)) == recv_ and a.left.args and unparse(a.left.args[0]) == arg0_ \
+                            and isinstance(a.ops[0], (ast.GtE, ast.Gt)) and isinstance(a.comparators[0], ast.Constant) \
+                            and isinstance(a.comparators[0].value, int) and \
+                            a.comparators[0].value >= (1 if isinstance(a.ops[0], ast.GtE) else 0):
+                        checked = True
+        if not checked and id(cs.node) not in seen:
+            seen.add(id(cs.node))
+            yield cs.node, sym.id.split('@')[0], d, ' & '.join(cs.cond_src())[-120:]
+
+
+def _g15(f, out):
+    for use, name, d, path in unchecked_find(f.node):
+        out.append(Finding('G15', 'REFUTED', f.mod, enclosing_stmt(use) or use, f.key,
+                           '%s = %s is used as a position (%s) on the path [%s] without having been compared with -1: '
+                           'when nothing is found the -1 is taken for a position (a slice that stops one character '
+                           'early, a negative length that moves the reader backwards -- the same input is then parsed '
+                           'again for ever)' % (name, short(d, 50), short(enclosing_stmt(use) or use, 60), path),
+                           '%s: %s from %s' % (f.qual, name, short(d, 40))))
 
 
 # --------------------------------------------------------------------------- G14
